@@ -4,7 +4,7 @@
    proofs are in Proofs/EvalTotal.v, ExecProofs.v, IncludeProofs.v, EvalGen.v. *)
 From Coq Require Import List NArith ZArith Bool.
 From Falco Require Import Base.Res Base.Bytes Gen.EvalConst Model.Float Model.Acl Model.Val Model.Assign Model.Oper
-  Model.AssignOld Model.Exec Model.EvalInclude Proofs.EvalTotal Proofs.ExecProofs Proofs.IncludeProofs Proofs.EvalGen.
+  Model.AssignOld Model.Exec Model.CallTree Model.EvalInclude Proofs.EvalTotal Proofs.CallTreeProofs Proofs.ExecProofs Proofs.IncludeProofs Proofs.EvalGen.
 Import ListNotations.
 
 (* ---------------------------------------------------------------- operators: a value or an error, for ALL operands *)
@@ -57,6 +57,12 @@ Proof. exact self_recursion_err. Qed.
 Theorem C08_mutual_recursion_err : forall mr r b, exec_sub [[XCall 1]; [XCall 0]] mr r b 0 = Err.
 Proof. exact mutual_recursion_err. Qed.
 
+(* the static call-tree pass that precedes every request (limitations.CheckFastlyCallTreeLimit) ends for
+   every call graph - cyclic, deep, wide - with the verdict accepted / "Too many sub calls" *)
+Theorem C08_calltree_total : forall limit subs,
+  check_call_tree limit subs <> OutOfFuel /\ check_call_tree limit subs <> Crash /\ check_call_tree limit subs <> Err.
+Proof. exact calltree_total. Qed.
+
 (* ---------------------------------------------------------------- restarts *)
 
 Theorem C08_restart_total : forall subs,
@@ -107,6 +113,7 @@ Print Assumptions C08_local_set_total.
 Print Assumptions C08_oper_total.
 Print Assumptions C08_ops_total_old_refuted.
 Print Assumptions C08_exec_total.
+Print Assumptions C08_calltree_total.
 Print Assumptions C08_depth_bound.
 Print Assumptions C08_self_recursion_err.
 Print Assumptions C08_mutual_recursion_err.
